@@ -103,6 +103,9 @@ Qed.
 Lemma Inv_set_par s v : Inv s -> Inv (set_store s (set_par (st s) v)).
 Proof. intros I. eapply Inv_same_tables; eauto. Qed.
 
+Lemma Inv_set_dev_used s v : Inv s -> Inv (set_store s (set_dev_used (st s) v)).
+Proof. intros I. eapply Inv_same_tables; eauto. Qed.
+
 Lemma Inv_set_now s t : Inv s -> Inv (set_now s t).
 Proof. intros I. eapply Inv_same_tables; eauto. Qed.
 Lemma Inv_set_clients s c : Inv s -> Inv (set_clients s c).
@@ -351,6 +354,14 @@ Proof.
   intros I Hd k' b' r' H Heq. cbn in H. upd_case k' k; [discriminate|].
   apply Hk. eapply (inv_device_rid s I); eassumption.
 Qed.
+
+Lemma Inv_invalidate_device s k rid : Inv s -> Inv (set_store s (invalidate_device (st s) k rid)).
+Proof.
+  intros I. exact (Inv_set_dev_used (set_store s (delete_device (st s) k)) _ (Inv_delete_device s k I)).
+Qed.
+Lemma invalidate_device_no_device s k b r rid :
+  Inv s -> device (st s) k = Some (b, r) -> no_device_rid (invalidate_device (st s) k rid) (r_id r).
+Proof. intros I Hd. exact (delete_device_no_device s k b r I Hd). Qed.
 
 (* access tokens minted by the authorization endpoint *)
 Lemma Inv_create_implicit s k r :
